@@ -230,6 +230,7 @@ def body(task):
     proc = W.curproc()
     x = int(task.x)
     proc.in_body = True
+    proc.info["phase"] = "body"
     W.bodies_running[proc.pid] = x
     att = W.attempts.get(x, 0)
     W.attempts[x] = att + 1
@@ -243,12 +244,14 @@ def body(task):
             k.park()
     except BaseException as e:
         proc.in_body = False
+        proc.info["phase"] = "after-body"
         W.bodies_running.pop(proc.pid, None)
         k.log("body-end", x=x, outcome="interrupted:" + type(e).__name__)
         raise
     outs = W.scn["tasks"][x].get("out") or ["ok"]
     outcome = outs[min(att, len(outs) - 1)]
     proc.in_body = False
+    proc.info["phase"] = "after-body"
     W.bodies_running.pop(proc.pid, None)
     k.log("body-end", x=x, outcome=outcome)
     if outcome == "ok":
@@ -552,6 +555,64 @@ GLOBALS = [
     (xtaskglobals.Env, "_instance", lambda: None),
 ]
 
+import builtins as _builtins
+import io as _io
+
+_real_open = _builtins.open
+
+
+class _ClosingProxy:
+    """File object of a path on which the opening process holds a record lock: POSIX drops
+    the process's lock when *any* descriptor of the file is closed."""
+
+    def __init__(self, f, path, pid):
+        object.__setattr__(self, "_f", f)
+        object.__setattr__(self, "_p", (path, pid))
+
+    def __getattr__(self, n):
+        return getattr(self._f, n)
+
+    def __iter__(self):
+        return iter(self._f)
+
+    def __enter__(self):
+        self._f.__enter__()
+        return self
+
+    def __exit__(self, *a):
+        r = self._f.__exit__(*a)
+        self._dropped()
+        return r
+
+    def close(self):
+        self._f.close()
+        self._dropped()
+
+    def _dropped(self):
+        path, pid = self._p
+        if W is not None and W.flocks.get(path) == pid:
+            del W.flocks[path]
+            W.k.log("flock-dropped-by-close", path=W.rel(path))
+            W.k.count("probe:lock-dropped-by-close")
+
+
+def sim_open(file, *a, **kw):
+    f = _real_open(file, *a, **kw)
+    w = W
+    if w is None or not w.flocks or w.k.current is None or isinstance(file, int):
+        return f
+    if sys._getframe(1).f_globals.get("__name__", "").startswith("fasteners"):
+        return f
+    try:
+        p = os.path.realpath(os.fspath(file))
+    except TypeError:
+        return f
+    pid = w.k.current.pid
+    if w.flocks.get(p) == pid:
+        return _ClosingProxy(f, p, pid)
+    return f
+
+
 _orig_glob = Path.glob
 _orig_iterdir = Path.iterdir
 
@@ -601,6 +662,7 @@ def install():
 
     xipc.Observer = SimObserver
     xipc.os = Proxy(os, getpid=cur_pid)
+    xtok.os = Proxy(os, getpid=cur_pid)
 
     xbase.SchedulerCentral.create = staticmethod(lambda name: SimCentral(name))
     xbase.asyncio = Proxy(asyncio, run_coroutine_threadsafe=run_coroutine_threadsafe)
@@ -624,6 +686,8 @@ def install():
 
     Path.glob = sim_glob
     Path.iterdir = sim_iterdir
+    _builtins.open = sim_open
+    _io.open = sim_open
 
     xrun.Path = SimPath
     xrun.os = Proxy(
